@@ -92,6 +92,9 @@ def arrPrims (ew : Nat) (op : ArrOp Nat) (st : ArrSt Nat) : List Prim :=
   | .push r _ =>
     let a := st r
     when (a.size == a.cap) (renew r (((if a.cap = 0 then 1 else a.cap) * 2) * ew))
+  | .pushSelf r i =>
+    let a := st r
+    if i < a.size then when (a.size == a.cap) (renew r (((if a.cap = 0 then 1 else a.cap) * 2) * ew)) else []
   | .appC r s =>
     let n := (st r).size + (st s).size
     when (decide (n > (st r).cap)) (renew r (n * ew))
@@ -117,8 +120,12 @@ def arrPrims (ew : Nat) (op : ArrOp Nat) (st : ArrSt Nat) : List Prim :=
   | .compress r => if (st r).size ≠ 0 then renew r ((st r).size * ew) else [.drop r]
   | .drop _ _ => []
 
-/-! ### String (unit width `w` bytes) — String.hpp -/
-def strPrims (w : Nat) (op : StrOp) (st : StrSt) : List Prim :=
+/-! ### String (unit width `w` bytes) — String.hpp
+
+`ff` ("free first") is the order of effects of `operator=(const Char_T*)`, read off the real code on every
+run: `true` = `deallocate(); copyString(str)` (release, then allocate), `false` = the copy is built first
+(needed when `str` points into the string's own block). -/
+def strPrims (w : Nat) (ff : Bool) (op : StrOp) (st : StrSt) : List Prim :=
   let len := fun r => (st r).data.length
   /- `Write(str, n)` with `n` units: fresh block, old one released afterwards -/
   let write := fun (r n : Nat) => when (n != 0) (renew r ((len r + n + 1) * w))
@@ -132,7 +139,14 @@ def strPrims (w : Nat) (op : StrOp) (st : StrSt) : List Prim :=
   | .adopt r u => renew r ((u.length + 1) * w)
   | .asgC r s => if r = s then [] else [.refresh r ((len s + 1) * w)]
   | .asgM r s => [.take r s]
-  | .asgU r u => [.refresh r ((u.length + 1) * w)]
+  | .asgU r u => if ff then [.refresh r ((u.length + 1) * w)] else renew r ((u.length + 1) * w)
+  | .appOwn v r off n => write r (if v = 0 then ownSlice (st r).data off n else ownCStr (st r).data off).length
+  | .asgOwn r off =>
+    match (st r).store with
+    | none => []
+    | some _ =>
+      let sz := ((ownCStr (st r).data off).length + 1) * w
+      if ff then [.refresh r sz] else renew r sz
   | .appC r s => write r (len s)
   | .appM r s => write r (len s) ++ [.drop s]
   | .appU r u => write r u.length
@@ -172,6 +186,15 @@ def ssPrims (P : Policy) (w : Nat) (op : SsOp) (st : SsSt) : List Prim :=
   | .appU v r u =>
     if v = 0 ∨ v = 3 then tmpStr u.length ++ need r (len r + u.length) ++ [.drop tmpU]
     else need r (len r + u.length)
+  | .appOwn v r off n =>
+    let d := (st r).data
+    if v < 3 then need r (len r + (ownSlice d off n).length)
+    else
+      let s1 := (st r).insertNull P
+      let src := if v < 5 then ownCStr d off else d
+      when (cap r == len r) (expand r (len r + 1)) ++
+        when (decide (s1.cap < len r + src.length)) (expand r (len r + src.length))
+  | .asgOwn v r _ _ => if v = 0 then [] else when (cap r == len r) (expand r (len r + 1))
   | .clear _ => []
   | .reset r => [.drop r]
   | .detach r => [.drop r]
@@ -192,7 +215,7 @@ def ssPrims (P : Policy) (w : Nat) (op : SsOp) (st : SsSt) : List Prim :=
 
 /-- Registers named by an operation. -/
 def arrRegs : ArrOp Nat → List Nat
-  | .push r _ | .clear r | .reset r | .detach r | .compress r => [r]
+  | .push r _ | .pushSelf r _ | .clear r | .reset r | .detach r | .compress r => [r]
   | .ctorN r _ _ | .reserve r _ _ | .resize r _ | .resizeInit r _ | .expect r _ | .drop r _ => [r]
   | .appC r s | .appM r s | .asgC r s | .asgM r s | .ctorC r s | .ctorM r s => [r, s]
 
@@ -200,11 +223,13 @@ def strRegs : StrOp → List Nat
   | .ctorC r s | .ctorM r s | .asgC r s | .asgM r s | .appC r s | .appM r s | .trim r s | .cmp _ r s => [r, s]
   | .plus r s t | .plusM r s t => [r, s, t]
   | .plusU r s _ => [r, s]
+  | .appOwn _ r _ _ | .asgOwn r _
   | .ctorU r _ | .ctorF r _ | .adopt r _ | .asgU r _ | .appU r _ | .appCh r _ | .stepBack r _ | .reverse r _
   | .insertAt r _ _ | .reset r | .detach r | .cmpU _ r _ => [r]
 
 def ssRegs : SsOp → List Nat
   | .ctorC r s | .ctorM r s | .asgC r s | .asgM r s | .appS r s | .shlS r s | .eqS _ r s => [r, s]
+  | .appOwn _ r _ _ | .asgOwn _ r _ _
   | .ctorN r _ | .asgU _ r _ | .pushCh _ r _ | .appU _ r _ | .clear r | .reset r | .detach r | .stepBack r _
   | .reverse r _ | .insertAt r _ _ | .setLength r _ _ | .buffer r _ | .expect r _ | .reserve r _ | .getString r
   | .getView r | .insertNull r | .eqU _ _ r _ => [r]
@@ -217,9 +242,9 @@ def arrProgram (ew : Nat) : List (ArrOp Nat) → ArrSt Nat → List Prim
   | [], _ => []
   | op :: ops, st => arrPrims ew op st ++ arrProgram ew ops (op.step 0 st).1
 
-def strProgram (w : Nat) : List StrOp → StrSt → List Prim
+def strProgram (w : Nat) (ff : Bool) : List StrOp → StrSt → List Prim
   | [], _ => []
-  | op :: ops, st => strPrims w op st ++ strProgram w ops (op.step st).1
+  | op :: ops, st => strPrims w ff op st ++ strProgram w ff ops (op.step st).1
 
 def ssProgram (P : Policy) (w : Nat) : List SsOp → SsSt → List Prim
   | [], _ => []
@@ -229,7 +254,7 @@ def ssProgram (P : Policy) (w : Nat) : List SsOp → SsSt → List Prim
 def traceOf (ps : List Prim) : List Ev := (execAll (ps ++ finalDrops) LW.init).2
 
 def arrTrace (ew : Nat) (ops : List (ArrOp Nat)) : List Ev := traceOf (arrProgram ew ops arrInit)
-def strTrace (w : Nat) (ops : List StrOp) : List Ev := traceOf (strProgram w ops strInit)
+def strTrace (w : Nat) (ff : Bool) (ops : List StrOp) : List Ev := traceOf (strProgram w ff ops strInit)
 def ssTrace (P : Policy) (w : Nat) (ops : List SsOp) : List Ev := traceOf (ssProgram P w ops ssInit)
 
 /-! ### Array<String<char>> — owning items: every item is a `String` that owns at most one block
@@ -280,6 +305,14 @@ def arrOwnPrims (c : Nat) (op : ArrOp Nat) (st : ArrSt Nat) (ow : OW) : List Pri
       ([.refresh tmpU (L + 1)] ++ grow ++ [.refresh ns (L + 1), .drop tmpU], ⟨setR it r (it r ++ [(ns, L)]), ns + 1⟩)
     else
       ([.refresh tmpU (L + 1)] ++ grow ++ [.take ns tmpU], ⟨setR it r (it r ++ [(ns, L)]), ns + 1⟩)
+  | .pushSelf r i =>
+    -- `r += r[i]` by `const&`: no temporary of the caller; the item is copied after the growth
+    match (it r)[i]? with
+    | some itm =>
+      let a := st r
+      (when (a.size == a.cap) (renew r (((if a.cap = 0 then 1 else a.cap) * 2) * ew16)) ++ [.refresh ns (itm.2 + 1)],
+       ⟨setR it r (it r ++ [(ns, itm.2)]), ns + 1⟩)
+    | none => ([], ow)
   | .appC r s =>
     let n := (st r).size + (st s).size
     let (ps, ni) := copyItems (it s) ns
